@@ -1502,7 +1502,12 @@ class SuccessionDiagram:
         assert self.dag.edges[parent_id, node_id] is not None
         parent_depth = cast(int, self.dag.nodes[parent_id]["depth"])
         current_depth = cast(int, self.dag.nodes[node_id]["depth"])
-        self.dag.nodes[node_id]["depth"] = max(current_depth, parent_depth + 1)
+        if parent_depth + 1 > current_depth:
+            self.dag.nodes[node_id]["depth"] = parent_depth + 1
+            # The longest path to every descendant goes (or can go) through
+            # this node, so a raised depth has to be propagated further.
+            for child_id in list(self.dag.successors(node_id)):  # type: ignore
+                self._update_node_depth(child_id, node_id)
 
     def _expand_one_node(self, node_id: int):
         """
